@@ -47,8 +47,9 @@ func (s *MemStorage) Stop() error {
 
 // GetRouter returns a router from the storage.
 func (s *MemStorage) GetRouter(ip netip.Addr) (*StoredRouter, error) {
-	s.routersLock.RLock()
-	defer s.routersLock.RUnlock()
+	// The entry's UsedAt is updated below: take the write lock.
+	s.routersLock.Lock()
+	defer s.routersLock.Unlock()
 
 	// Load entry, return nil if it does not exist.
 	info := s.routers[ip]
